@@ -45,6 +45,8 @@ func digestOf(v interface{}, err error) string {
 
 func execGrowth(vec J, out *Writer) {
 	switch vec["k"].(string) {
+	case "api":
+		out.Put(apiCase(vec))
 	case "doc", "keys":
 		// the typed documents of C10 (spec/DebDocsGen.tla): here only their "remarshal" observation is judged
 		execDocs(vec, out)
@@ -388,4 +390,130 @@ func init() {
 		deb.SetXZMaxDict(0)
 		fmt.Printf("{\"ev\":\"xzrace\",\"built\":true,\"mode\":%q}\n", mode)
 	}
+}
+
+
+// ---- the control package's reflection API used in ways its documents do not: every case ends in an error or in the
+// result the ordinary route gives - never in a panic (spec/Growth.tla: ApiContract)
+
+type apiInner struct{ X string }
+type apiFloat struct {
+	Name string
+	F    float64
+}
+type apiNested struct {
+	Name string
+	N    apiInner
+}
+type apiPtr struct {
+	Name string
+	P    *string
+}
+type apiPlain struct {
+	Name  string
+	Count int
+	Tags  []string `delim:", "`
+}
+
+func apiCase(vec J) (rec J) {
+	name := vec["case"].(string)
+	rec = J{"ev": "api", "in": vec, "panic": false, "err": false, "equal": false}
+	defer func() {
+		if r := recover(); r != nil {
+			rec["panic"] = true
+		}
+	}()
+	doc := "Name: n\nCount: 3\nTags: a, b\nF: 1.5\nN: x\nP: v\n"
+	setErr := func(err error) { rec["err"] = err != nil }
+	newDec := func() *control.Decoder {
+		d, err := control.NewDecoder(strings.NewReader(doc), nil)
+		if err != nil {
+			die("api: %v", err)
+		}
+		return d
+	}
+	para := func() control.Paragraph {
+		rd, _ := control.NewParagraphReader(strings.NewReader(doc), nil)
+		p, err := rd.Next()
+		if err != nil {
+			die("api: %v", err)
+		}
+		return *p
+	}
+	var buf, buf2 bytes.Buffer
+	switch name {
+	case "decode-nonpointer":
+		setErr(newDec().Decode(apiPlain{}))
+	case "decode-into-int":
+		var i int
+		setErr(newDec().Decode(&i))
+	case "unmarshal-float-field":
+		setErr(control.Unmarshal(&apiFloat{}, strings.NewReader(doc)))
+	case "unmarshal-nested-struct-field":
+		setErr(control.Unmarshal(&apiNested{}, strings.NewReader(doc)))
+	case "unmarshal-pointer-field":
+		setErr(control.Unmarshal(&apiPtr{}, strings.NewReader(doc)))
+	case "marshal-float-field":
+		setErr(control.Marshal(&buf, &apiFloat{Name: "n", F: 1.5}))
+	case "marshal-nested-struct-field":
+		setErr(control.Marshal(&buf, &apiNested{Name: "n", N: apiInner{"x"}}))
+	case "marshal-int":
+		i := 3
+		setErr(control.Marshal(&buf, &i))
+	case "marshal-nil-pointer-field":
+		setErr(control.Marshal(&buf, &apiPtr{Name: "n"}))
+	case "marshal-pointer-field":
+		v := "v"
+		setErr(control.Marshal(&buf, &apiPtr{Name: "n", P: &v}))
+		rec["equal"] = buf.String() == "Name: n\nP: v\n"
+	case "convert-nonpointer":
+		_, err := control.ConvertToParagraph(apiPlain{Name: "n"})
+		setErr(err)
+	case "convert-pointer-to-int":
+		i := 3
+		_, err := control.ConvertToParagraph(&i)
+		setErr(err)
+	case "unpack-nonpointer":
+		setErr(control.UnpackFromParagraph(para(), apiPlain{}))
+	case "unpack-equals-unmarshal":
+		var a, b apiPlain
+		e1 := control.UnpackFromParagraph(para(), &a)
+		e2 := control.Unmarshal(&b, strings.NewReader(doc))
+		rec["err"] = e1 != nil || e2 != nil
+		rec["equal"] = fmt.Sprint(a) == fmt.Sprint(b) && a.Name == "n" && a.Count == 3 && len(a.Tags) == 2
+	case "convert-equals-marshal":
+		v := apiPlain{Name: "n", Count: 3, Tags: []string{"a", "b"}}
+		p, e1 := control.ConvertToParagraph(&v)
+		e2 := control.Marshal(&buf, &v)
+		rec["err"] = e1 != nil || e2 != nil
+		if p != nil {
+			p.WriteTo(&buf2)
+		}
+		rec["equal"] = buf.String() == buf2.String() && buf.Len() > 0
+	case "encode-slice-equals-encode-each":
+		vs := []apiPlain{{Name: "a", Count: 1}, {Name: "b", Tags: []string{"x"}}, {Name: "c"}}
+		e1, _ := control.NewEncoder(&buf)
+		e2, _ := control.NewEncoder(&buf2)
+		err := e1.Encode(vs)
+		for i := range vs {
+			if e := e2.Encode(&vs[i]); e != nil {
+				err = e
+			}
+		}
+		rec["err"] = err != nil
+		rec["equal"] = buf.String() == buf2.String() && buf.Len() > 0
+	case "encode-pointer-to-slice":
+		vs := []apiPlain{{Name: "a"}, {Name: "b"}}
+		e1, _ := control.NewEncoder(&buf)
+		e2, _ := control.NewEncoder(&buf2)
+		err := e1.Encode(&vs)
+		if e := e2.Encode(vs); e != nil {
+			err = e
+		}
+		rec["err"] = err != nil
+		rec["equal"] = buf.String() == buf2.String() && buf.Len() > 0
+	default:
+		die("api: unknown case %s", name)
+	}
+	return rec
 }
